@@ -1029,13 +1029,28 @@ def check_network(net, acc, P):
 # --------------------------------------------------------------------------------------
 # equivalence of two networks (cached vs parsed)
 # --------------------------------------------------------------------------------------
+_REG = [None]  # elements dict of the network being fingerprinted (identity check)
+
+
+def _euid(x):
+    """uid of a reference -- but only if it *is* the registered element of that uid in the
+    network being fingerprinted (a placeholder or a copy with the same uid is not)."""
+    from scenic.domains.driving import roads as R
+
+    if x is None:
+        return None
+    if isinstance(x, R.NetworkElement) and _REG[0].get(x.uid) is x:
+        return x.uid
+    return f"<foreign {type(x).__name__} uid={getattr(x, 'uid', None)!r}>"
+
+
 def _ref(v):
     from scenic.domains.driving import roads as R
 
-    if isinstance(v, R.NetworkElement):
-        return ("E", v.uid)
+    if isinstance(v, (R.NetworkElement, R._ElementPlaceholder)):
+        return ("E", _euid(v))
     if isinstance(v, R.Maneuver):
-        return ("M", v.type.name if v.type else None, uid(v.startLane), uid(v.connectingLane), uid(v.endLane), uid(v.intersection))
+        return ("M", v.type.name if v.type else None, _euid(v.startLane), _euid(v.connectingLane), _euid(v.endLane), _euid(v.intersection))
     if isinstance(v, R.Signal):
         return ("S", v.uid, v.openDriveID, v.country, v.type)
     return None
@@ -1073,11 +1088,23 @@ _SKIP_ATTRS = {"network", "orientation", "_rtree", "_uidForIndex", "elements", "
 
 def fingerprint(net):
     """uid -> {attribute -> canonical value}: every element-valued, geometric and scalar
-    attribute of every element and of the network itself (link graph by uid, polygons as
-    WKB, polylines as coordinate arrays)."""
+    attribute of every element and of the network itself (link graph by uid *and identity*,
+    polygons as WKB, polylines as coordinate arrays)."""
+    _REG[0] = net.elements
+    try:
+        return _fingerprint(net)
+    finally:
+        _REG[0] = None
+
+
+def _fingerprint(net):
     fp = {}
     for u, e in net.elements.items():
         rec = {"__class__": type(e).__name__, "polygon": ("poly", shapely.to_wkb(e.polygon))}
+        try:
+            rec["__network__"] = e.network.elements is net.elements
+        except ReferenceError:
+            rec["__network__"] = False
         for k, v in vars(e).items():
             if k in _SKIP_ATTRS or k.startswith("_cached") or k in rec:
                 continue
@@ -1744,22 +1771,36 @@ def _run(ctx, maps, empty, P, rundir):
     model_states, model_trans = cm.reachable(P["depth"])
 
     # ---- vacuity guards ----
+    # A vacuous run is a harness error (exit 2) -- unless the run found violations that are
+    # not registered as known findings: then the violations are what must be reported (a
+    # defect that removes a whole kind of link also empties its counter), and the vacuity
+    # is recorded as a note.
+    vac = []
     missing = [k for k in REQUIRED_RELATIONS if rel_total.get(k, 0) == 0]
     if missing:
-        raise HarnessError(f"vacuous: no link/lookup judged for relation kinds {missing}")
+        vac.append(f"no link/lookup judged for relation kinds {missing}")
     if cnt_total.get("elementAt_priority_discriminating", 0) == 0:
-        raise HarnessError("vacuous: no probe within tolerance of two top-level element classes")
+        vac.append("no probe within tolerance of two top-level element classes")
     used = sum(v for k, v in tally.items() if k.endswith(":cache-used"))
     ignored = sum(v for k, v in tally.items() if k.endswith(":parsed") and not k.startswith("load:bypass"))
     if used == 0 or ignored == 0:
-        raise HarnessError(f"vacuous cache exploration: cache used {used}x, ignored {ignored}x")
+        vac.append(f"cache exploration: cache used {used}x, ignored {ignored}x")
     for cls in ("absent", "valid", "stale-map", "stale-options", "stale-map+options", "hard-corrupt", "soft-corrupt", "bypass"):
         if not any(k.startswith(f"load:{cls}:") for k in tally):
-            raise HarnessError(f"vacuous cache exploration: no load with a {cls} cache")
+            vac.append(f"cache exploration: no load with a {cls} cache")
     if not states <= model_states or not trans <= model_trans:
-        raise HarnessError("implementation-side exploration left the model's reachable graph")
+        vac.append("implementation-side exploration left the model's reachable graph")
     if ctx.tier == "thorough" and variants_built == 0:
-        raise HarnessError("vacuous: no deletion variant built")
+        vac.append("no deletion variant built")
+    if vac:
+        from mc import runner
+
+        known = runner.load_known()
+        fresh = [v for v in ctx.violations if not runner.match_known(ID, v, known)]
+        if not fresh:
+            raise HarnessError("vacuous: " + "; ".join(vac))
+        ctx.notes.append("VACUITY (reported as a note because unregistered violations were found): " + "; ".join(vac))
+        ctx.cov["vacuity_warnings"] = vac
 
     evaluations = sum(rel_total.values()) + sum(v for k, v in tally.items() if k.startswith("load:")) + sum(sweep_out.values())
     ctx.cov.update(
